@@ -567,6 +567,7 @@ func runC29(c *core.Check) {
 	runAxisClause(c, "C29.axis", pk, nil, 300)
 	runMirrorClause(c, "C29.mirror", pk, 0)
 	runTwinAssignClause(c, "C29.twin-assign", pk)
+	runC29Agreement(c)
 	c.Rule("C29.visit-all", "the bounding-box loops visit every shape, connection and nested board")
 	nv := 0
 	for _, name := range []string{"BoundingBox", "NestedBoundingBox"} {
@@ -831,5 +832,154 @@ func constantFamilies(c *core.Check, rule string, pkgs []*packages.Package) {
 		c.Fail(rule, "family:sites", token.NoPos, fmt.Sprintf("only %d branches on family constants found", nif))
 	} else {
 		c.Pass(rule, "family:sites", token.NoPos, fmt.Sprintf("%d branches on family constants use their own member's constants", nif))
+	}
+}
+
+// runC29Agreement — the bounding box and the renderer agree on what moves or adds drawn material:
+// (1) the boolean style flags of a shape under which d2svg.drawShape enlarges the box an outside label is placed
+// against (3d, multiple) are the flags under which Diagram.BoundingBox moves the label it accounts for;
+// (2) every optional part of a connection that d2svg.drawConnection draws when it is present (label, arrowhead
+// labels, icon) is mentioned by the connection loop of Diagram.BoundingBox.
+func runC29Agreement(c *core.Check) {
+	c.Rule("C29.label-flags", "the style flags that move an outside label in the renderer are the flags that move it in BoundingBox")
+	c.Rule("C29.connection-parts", "every optional part of a connection that the renderer draws is accounted for by BoundingBox")
+	draw := mustFunc(c, "d2renderers/d2svg", "", "drawShape")
+	drawConn := mustFunc(c, "d2renderers/d2svg", "", "drawConnection")
+	bb := mustFunc(c, "d2target", "Diagram", "BoundingBox")
+	if draw == nil || drawConn == nil || bb == nil {
+		return
+	}
+	// (1) flags guarding writes to a *geo.Box local in drawShape vs flags guarding writes to a label point in BoundingBox
+	flagsGuarding := func(fi *core.FuncInfo, isTarget func(info *types.Info, lhs ast.Expr) bool) map[string]token.Pos {
+		info := fi.Pkg.TypesInfo
+		fl := core.NewFlow(fi.Pkg, fi.Decl.Body)
+		out := map[string]token.Pos{}
+		ast.Inspect(fi.Decl.Body, func(n ast.Node) bool {
+			if _, isLit := n.(*ast.FuncLit); isLit {
+				return false
+			}
+			as, ok := n.(*ast.AssignStmt)
+			if !ok || len(as.Lhs) != 1 || as.Tok == token.DEFINE || !isTarget(info, as.Lhs[0]) {
+				return true
+			}
+			for _, g := range fl.GuardsOfNode(as) {
+				for _, a := range g.Atoms() {
+					if !a.True {
+						continue
+					}
+					sel, ok := ast.Unparen(a.Cond).(*ast.SelectorExpr)
+					if !ok {
+						continue
+					}
+					f := core.FieldOf(info, sel)
+					if f == nil || !core.FieldIs(info, sel, "d2target", "Shape", f.Name()) {
+						continue
+					}
+					if b, ok := f.Type().Underlying().(*types.Basic); ok && b.Kind() == types.Bool {
+						if _, dup := out[f.Name()]; !dup {
+							out[f.Name()] = as.Pos()
+						}
+					}
+				}
+			}
+			return true
+		})
+		return out
+	}
+	isGeoBoxField := func(info *types.Info, lhs ast.Expr) bool {
+		root := rootIdent(info, lhs)
+		if root == nil {
+			return false
+		}
+		t := root.Type()
+		if p, ok := t.(*types.Pointer); ok {
+			t = p.Elem()
+		}
+		n, ok := t.(*types.Named)
+		return ok && n.Obj().Name() == "Box" && n.Obj().Pkg() != nil && strings.HasSuffix(n.Obj().Pkg().Path(), "/lib/geo") && root.Name() == "box"
+	}
+	isLabelPoint := func(info *types.Info, lhs ast.Expr) bool {
+		root := rootIdent(info, lhs)
+		if root == nil {
+			return false
+		}
+		t := root.Type()
+		if p, ok := t.(*types.Pointer); ok {
+			t = p.Elem()
+		}
+		n, ok := t.(*types.Named)
+		return ok && n.Obj().Name() == "Point" && strings.HasPrefix(strings.ToLower(root.Name()), "label")
+	}
+	rFlags := flagsGuarding(draw, isGeoBoxField)
+	bFlags := flagsGuarding(bb, isLabelPoint)
+	if len(rFlags) < 2 {
+		c.Fail("floor", "floor:C29.label-flags", token.NoPos, fmt.Sprintf("only %d style flags enlarge the label box in drawShape (confirmed by hand: ThreeDee, Multiple)", len(rFlags)))
+	}
+	for _, f := range sortedKeys(rFlags) {
+		_, ok := bFlags[f]
+		c.Decide(ok, "C29.label-flags", "label-flags:"+f, rFlags[f], "BoundingBox moves the label under the same flag", "drawShape places an outside label against a box enlarged when "+f+" is set, BoundingBox never moves the label for "+f+": the label is drawn outside the reported bounds by the offset")
+	}
+	for _, f := range sortedKeys(bFlags) {
+		if _, ok := rFlags[f]; !ok {
+			c.Fail("C29.label-flags", "label-flags:"+f, bFlags[f], "BoundingBox moves the label when "+f+" is set, the renderer does not")
+		}
+	}
+	// (2) optional parts of a connection
+	parts := map[string]token.Pos{}
+	{
+		info := drawConn.Pkg.TypesInfo
+		ast.Inspect(drawConn.Decl.Body, func(n ast.Node) bool {
+			is, ok := n.(*ast.IfStmt)
+			if !ok {
+				return true
+			}
+			for _, a := range (core.Guard{Cond: is.Cond, True: true}).Atoms() {
+				be, ok := ast.Unparen(a.Cond).(*ast.BinaryExpr)
+				if !ok || !a.True || be.Op != token.NEQ {
+					continue
+				}
+				sel, ok := ast.Unparen(be.X).(*ast.SelectorExpr)
+				if !ok {
+					continue
+				}
+				f := core.FieldOf(info, sel)
+				if f == nil || !core.FieldIs(info, sel, "d2target", "Connection", f.Name()) {
+					continue
+				}
+				isPresence := core.IsNil(info, be.Y)
+				if lit, ok := ast.Unparen(be.Y).(*ast.BasicLit); ok && lit.Value == `""` {
+					isPresence = true
+				}
+				_, isPtr := f.Type().Underlying().(*types.Pointer)
+				isStr := false
+				if b, ok := f.Type().Underlying().(*types.Basic); ok && b.Kind() == types.String {
+					isStr = true
+				}
+				if isPresence && (isPtr || (isStr && f.Name() == "Label")) {
+					if _, dup := parts[f.Name()]; !dup {
+						parts[f.Name()] = is.Pos()
+					}
+				}
+			}
+			return true
+		})
+	}
+	if len(parts) < 4 {
+		c.Fail("floor", "floor:C29.connection-parts", token.NoPos, fmt.Sprintf("only %d optional connection parts found in drawConnection (confirmed by hand: Label, SrcLabel, DstLabel, Icon)", len(parts)))
+	}
+	mentioned := map[string]bool{}
+	{
+		info := bb.Pkg.TypesInfo
+		ast.Inspect(bb.Decl.Body, func(n ast.Node) bool {
+			if sel, ok := n.(*ast.SelectorExpr); ok {
+				if f := core.FieldOf(info, sel); f != nil && core.FieldIs(info, sel, "d2target", "Connection", f.Name()) {
+					mentioned[f.Name()] = true
+				}
+			}
+			return true
+		})
+	}
+	for _, f := range sortedKeys(parts) {
+		c.Decide(mentioned[f], "C29.connection-parts", "connection-parts:"+f, parts[f], "BoundingBox reads Connection."+f, "drawConnection draws the connection's "+f+" when it is present, BoundingBox has no term for it: it is drawn outside the reported bounds")
 	}
 }
